@@ -12,6 +12,8 @@ for d in sorted(os.listdir(os.path.join(HERE, "seeded"))):
     if only and not any(d.startswith(o) for o in only):
         continue
     sd = os.path.join(HERE, "seeded", d)
+    if not os.path.isdir(sd):
+        continue
     meta = json.load(open(os.path.join(sd, "meta.json")))
     pid = meta["property"]
     tmp = tempfile.mkdtemp(prefix="seedrun_")
